@@ -457,5 +457,43 @@ func c08Record(tier string, seed int64, emit func(interface{})) {
 			emit(ev)
 		}
 	}
+	// concurrent re-weighting of default tables with pairwise different ids (run under the race detector in thorough)
+	nConc := 6
+	if tier == "thorough" {
+		nConc = 60
+	}
+	for ci := 0; ci < nConc; ci++ {
+		resetDefaults(tableIds)
+		rng.Shuffle(len(all), func(i, j int) { all[i], all[j] = all[j], all[i] })
+		k := 2 + rng.Intn(5)
+		ids := append([]int(nil), all[:k]...)
+		sort.Ints(ids)
+		emit(map[string]interface{}{"op": "reset", "ids": ids})
+		seqs := make([]string, k)
+		for j := range seqs {
+			seqs[j] = randCoding(rng, 30+rng.Intn(1500), rng.Intn(2) == 0)
+		}
+		results := make([]codon.Table, k)
+		var wg sync.WaitGroup
+		start := make(chan struct{})
+		for j := 0; j < k; j++ {
+			wg.Add(1)
+			go func(j int) {
+				defer wg.Done()
+				<-start
+				for rep := 0; rep < 3; rep++ {
+					results[j] = codon.GetCodonTable(ids[j]).OptimizeTable(seqs[j])
+				}
+			}(j)
+		}
+		close(start)
+		wg.Wait()
+		res := []interface{}{}
+		for j := 0; j < k; j++ {
+			w, _, _ := projectTable(results[j])
+			res = append(res, toSparse(w))
+		}
+		emit(map[string]interface{}{"op": "conc", "ids": ids, "seqs": seqs, "results": res, "obs": c08Observe(map[int]codon.Table{}, ids)})
+	}
 	resetDefaults(tableIds)
 }
